@@ -4,9 +4,9 @@ CONSTANTS
   NPost = 2
   Posters = {"p1", "p2"}
   BlockingPosters = {"p2"}
-  Drain = FALSE
-  QuitEscape = FALSE
-  CloseFirst = TRUE
+  Drain = TRUE
+  QuitEscape = TRUE
+  CloseFirst = FALSE
   SignalPath = FALSE
 SPECIFICATION FairSpec
 INVARIANTS NoGoroutineLeft PerPosterFIFO BlockingNeverDropped
